@@ -55,7 +55,8 @@ Inductive vkind := VNum | VStr | VStar | VPh | VRe | VNull | VStrs (l : list str
       (di_text = its name) | regular expression | no value at all | list of plain strings (a placeholder
       after replacement; [] renders as null, one value as that string, more as an OR) | *text* (`|contains`) *)
 Record ditem := { di_field : str; di_text : str; di_kind : vkind }.
-Inductive ptree := PId (n : str) | PNot (t : ptree) | PAnd (l : list ptree) | POr (l : list ptree).
+Inductive ptree := PId (n : str) | PNot (t : ptree) | PAnd (l : list ptree) | POr (l : list ptree)
+                 | PSel (all : bool) (pat : str).     (* selector: `all of pat` / `1 of pat` (`any of pat`) *)
 Record rule := {
   r_bad : option N;                    (* Some tag: loading this document raises that Sigma error *)
   r_mods : list (N * N);               (* modifier applications while loading: (modifier class, type of the value:
@@ -419,14 +420,34 @@ Definition leaf_of (d : ditem) : ctree :=
   | VStrs vs => COr (map (fun v => CLeaf (val_leaf (di_field d) v)) vs)
   | _ => CLeaf d
   end.
+(* ConditionSelector.resolve_referenced_detections: the detection names, IN THE ORDER OF THE RULE'S DETECTION SECTION,
+   that the pattern matches ("them": all; * stands for any character sequence); names starting with _ (filter
+   detections) only for patterns starting with _ *)
+Fixpoint glob (p : str) : str -> bool :=
+  match p with
+  | [] => fun s => match s with [] => true | _ => false end
+  | c :: p' =>
+      if N.eqb c 42
+      then fix star (s : str) : bool := glob p' s || match s with [] => false | _ :: s' => star s' end
+      else fun s => match s with x :: s' => N.eqb x c && glob p' s' | [] => false end
+  end.
+Definition starts_us (s : str) : bool := match s with 95 :: _ => true | _ => false end.
+Definition sel_match (pat name : str) : bool :=
+  (if str_eqb pat (lit "them") then true else glob pat name) && (starts_us pat || negb (starts_us name)).
+Definition det_tree (ds : list ditem) : ctree :=
+  match ds with [d] => leaf_of d | _ => CAnd (map leaf_of ds) end.
 (* postprocess(): identifiers are replaced by the rule's detections *)
 Fixpoint resolve (dets : list (str * list ditem)) (t : ptree) : outcome ctree :=
   match t with
   | PId n => match lookup n dets with
              | None => SigmaErr E_Condition
-             | Some [d] => Ok (leaf_of d)
-             | Some ds => Ok (CAnd (map leaf_of ds))
+             | Some ds => Ok (det_tree ds)
              end
+  | PSel all pat =>
+      let ms := map (fun nd => det_tree (snd nd)) (filter (fun nd => sel_match pat (fst nd)) dets) in
+      (* ConditionItem.postprocess: an AND / OR left with one argument is that argument (no match at all yields no
+         condition and no query; histories here always match something) *)
+      Ok (match ms with [x] => x | _ => if all then CAnd ms else COr ms end)
   | PNot a => obind (resolve dets a) (fun c => Ok (CNot c))
   | PAnd l => obind (omap (resolve dets) l) (fun cs => Ok (CAnd cs))
   | POr l => obind (omap (resolve dets) l) (fun cs => Ok (COr cs))
